@@ -96,6 +96,13 @@ have -> : fsum 0 +%R [seq fsum 0 +%R [seq chain_MK cs c i a | a <- iota 0 na] | 
 by rewrite (hsum (fun _ _ => true)).
 Qed.
 
+Lemma posterior_chain_col_eq (cs : seq scolK) c ind g :
+  (c < size cs)%N ->
+  @posterior_chain_col K 0 1 +%R *%R divK tn na genof cs c ind g = post_chain cs c ind g.
+Proof.
+by move=> hc; rewrite /posterior_chain_col /posterior_chain_gen (nth_map 0%N) ?size_iota // nth_iota // add0n.
+Qed.
+
 (* ---------------------------------------------------------------- equal columns give equal posteriors *)
 Fixpoint cols_eqv (cs cs' : seq scolK) : Prop :=
   match cs, cs' with
